@@ -31,6 +31,10 @@ run_directed = directed.run
 
 
 def cases(tier, rng):
+    for c in directed.constructor_keyword_named_cls_cases():
+        yield "directed-constructor-keyword-named-cls", c
+    for c in directed.property_docstrings_cases():
+        yield "directed-property-docstrings", c
     thorough = tier == "thorough"
     for c in directed.proxies_and_nested_constructors_cases():
         yield "directed-proxies-and-nested-constructors", c
